@@ -41,6 +41,60 @@ MAIN = {
 }
 POOL = ['a', 'b', 'c', 'd', 'main']
 
+# a module rich in constructs whose rendering collects names / members (anything built from a set or an unordered
+# walk would show up as hash-seed dependence): closures and lambdas capturing several names, classes, enums, dicts
+RICH = '''from enum import Enum
+
+class Kind(Enum):
+	North = 1
+	East = 2
+	South = 3
+	West = 4
+
+class Box:
+	width: int
+	height: int
+	label: str
+
+	def __init__(self, width: int, height: int, label: str) -> None:
+		self.width = width
+		self.height = height
+		self.label = label
+
+	def area(self, scale: int, offset: int) -> int:
+		def inner(extra: int) -> int:
+			return (self.width * self.height + extra) * scale + offset
+
+		return inner(1)
+
+	@classmethod
+	def unit(cls) -> 'Box':
+		return cls(1, 1, 'unit')
+
+	@property
+	def title(self) -> str:
+		return self.label + ':' + str(self.width)
+
+def mix(alpha: int, beta: int, gamma: int, delta: int) -> int:
+	def blend() -> int:
+		return alpha + beta * 2 + gamma * 3 + delta * 4
+
+	return blend()
+
+def apply(values: list[int], low: int, high: int, step: int) -> list[int]:
+	return [v * step for v in values if v > low and v < high]
+
+def table(first: str, second: str, third: str) -> dict[str, int]:
+	return {first: 1, second: 2, third: 3, 'zeta': 4, 'eta': 5, 'theta': 6}
+
+def pick(kind: Kind, one: int, two: int) -> int:
+	if kind == Kind.North or kind == Kind.South:
+		return one
+	elif kind == Kind.East:
+		return two
+	return one + two
+'''
+
 
 def real_name(m: str) -> str:
 	return '__main__' if m == 'main' else f'vm.{m}'
@@ -219,10 +273,13 @@ def _cli_run(args) -> dict:
 	root, order, hashseed = args
 	from harness.fs_binding import World
 	w = World(root, 'Chain')
+	with open(os.path.join(root, 'vm', 'rich.py'), 'w') as f:
+		f.write(RICH)
+	w.mods = list(w.mods) + ['rich']
 	import yaml
 	cfg_path = os.path.join(root, 'config.yml')
 	cfg = yaml.safe_load(open(cfg_path))
-	cfg['input_globs'] = [f'vm/{m}.py' for m in order]
+	cfg['input_globs'] = [f'vm/{m}.py' for m in order] + ['vm/rich.py']
 	yaml.safe_dump(cfg, open(cfg_path, 'w'))
 	env = dict(os.environ)
 	env.update({'PYTHONHASHSEED': hashseed, 'VERIF_CACHE_DIR': os.path.join(root, 'cache'), 'VERIF_CACHE_ENABLED': '1', 'PYTHONPATH': f'{os.path.dirname(os.path.dirname(os.path.dirname(os.path.abspath(__file__))))}:{root}'})
